@@ -30,7 +30,7 @@ SortedSeq(S) == IF S = {} THEN <<>> ELSE LET m == MinOf(S) IN <<m>> \o SortedSeq
 Canon(l) == IF l = <<>> THEN <<>>
             ELSE LET ks == SortedSeq(KeysOf(l)) IN [i \in 1..Len(ks) |-> l[LastIdx(l, ks[i])]]
 
-IsSet(s) == \A i, j \in DOMAIN s : i < j => s[i].k < s[j].k
+IsSet(s) == \A i \in 1..(Len(s) - 1) : s[i].k < s[i + 1].k      \* strictly increasing keys
 
 (* multisets of attributes, represented by any sequence *)
 Count(s, a) == Cardinality({i \in DOMAIN s : s[i] = a})
@@ -72,6 +72,43 @@ Lookup(s, k) == IF HasKey(s, k) THEN [has |-> TRUE, t |-> At(s, k).t, x |-> At(s
 LookAll(s, K) == [k \in 1..K |-> Lookup(s, k)]
 
 Indexed(s) == [i \in DOMAIN s |-> [i |-> i - 1, a |-> s[i]]]
+
+(* Set.Get(idx): "the KeyValue at ordered position idx" (0-based), ok = FALSE outside 0..Len-1; *)
+(* GetAll probes every position from -1 to Len                                               *)
+Get(s, idx) == IF idx \in 0..(Len(s) - 1) THEN [ok |-> TRUE, a |-> <<s[idx + 1]>>] ELSE [ok |-> FALSE, a |-> <<>>]
+GetAll(s) == [j \in 1..(Len(s) + 2) |-> Get(s, j - 2)]
+
+-----------------------------------------------------------------------------
+(* Iterators (attribute.Iterator, attribute.MergeIterator), from the doc comments of          *)
+(* iterator.go: "iterating over the set of attributes in order, sorted by key"; Next "moves    *)
+(* the iterator to the next position, returns false if there are no more attributes";          *)
+(* Attribute / IndexedAttribute (and the deprecated Label / IndexedLabel) "must be called only *)
+(* after Next returns true"; Len "a number of attributes in the iterated set" (the whole set,  *)
+(* wherever the iterator stands); ToSlice "the iterator is set up to start from the beginning  *)
+(* before creating the slice" (= always the whole contents, whatever was visited before).      *)
+(* A MergeIterator iterates Merge(a, b) (union in key order, first set wins); it has only Next *)
+(* and Attribute / Label.                                                                      *)
+(*                                                                                             *)
+(* A position over a sequence s of n attributes: 0 = before the first one (fresh), p in 1..n = *)
+(* at s[p], n+1 = exhausted (and stays there).  The model tracks the SET of positions the      *)
+(* documentation admits: a singleton, except after ToSlice, where the documentation says where *)
+(* the copy starts but not where the iterator is left; every later return value must be        *)
+(* explained by one of the admitted positions and narrows the set.                              *)
+ItFresh == {0}
+ItStep(s, p) == IF p <= Len(s) THEN p + 1 ELSE p
+ItMore(s, p) == ItStep(s, p) <= Len(s)                       \* what Next returns when called at p
+ItNextAdm(s, P) == {ItMore(s, p) : p \in P}                  \* admissible results of Next
+ItNextTo(s, P, b) == {ItStep(s, p) : p \in {q \in P : ItMore(s, q) = b}}
+ItResync(s, b) == {ItStep(s, p) : p \in {q \in 0..(Len(s) + 1) : ItMore(s, q) = b}}
+ItAtElem(s, P) == P # {} /\ P \subseteq 1..Len(s)            \* Attribute is defined here only
+(* an observed current attribute o = [i, a]: i = 0-based index, or -1 when the accessor reports none; a = <<attribute>> *)
+ItMatches(s, p, o) == o.a = <<s[p]>> /\ (o.i = -1 \/ o.i = p - 1)
+ItAttrTo(s, P, o) == {p \in P : ItMatches(s, p, o)}
+ItAfterSlice(s) == 0..(Len(s) + 1)
+
+(* what a loop `for it.Next() { append(it.Attribute()) }` collects from position p *)
+RECURSIVE ItDrain(_, _)
+ItDrain(s, p) == IF ItMore(s, p) THEN <<s[ItStep(s, p)]>> \o ItDrain(s, ItStep(s, p)) ELSE <<>>
 
 -----------------------------------------------------------------------------
 (* Identity.  Sets holding the same key -> typed value mapping MUST be equal   *)
